@@ -634,6 +634,17 @@ static std::string run_ptr(const Case& c, vf::Ctx& ctx)
     }
     else if (components_differing(T_S2, c.x, c.y) == 1)
         ctx.mark_nontrivial();
+    // a shared_ptr that points at an object without owning it (aliasing constructor with an empty owner)
+    {
+        S2 obj(c.x), obj2(c.y);
+        std::shared_ptr<S2> alias(std::shared_ptr<void>(), &obj), alias2(std::shared_ptr<void>(), &obj2);
+        ctx.tag("ptr:non-owning-alias");
+        if (nitro::lang::hash(alias) != hx || nitro::lang::hash(alias2) != hy)
+            return "hash of a non-owning shared_ptr differs from the hash of its pointee: " + describe(c);
+        if (nitro::lang::hash(std::make_pair(1, alias)) != nitro::lang::hash(std::make_pair(1, s1)))
+            return "a pair holding a non-owning shared_ptr hashes differently from one holding an owning pointer to an "
+                   "equal value: " + describe(c);
+    }
     // pointers to pairs, tuples, variants and pointers hash through their pointee, too
     {
         Pr pv = make<Pr>(c.x);
@@ -804,6 +815,115 @@ static std::string run_valueless(const Case& c, vf::Ctx& ctx)
     return "";
 }
 
+// a variant with many alternatives: values held at the late indices hash like values, not like nothing
+using BigVar = std::variant<int, long, short, char, bool, float, double, unsigned, std::string, long long,
+                            unsigned char, std::pair<int, int>>;
+static BigVar big_var(int index, long long v, const std::string& s)
+{
+    switch (index % 12)
+    {
+    case 0:
+        return BigVar(std::in_place_index<0>, static_cast<int>(v));
+    case 1:
+        return BigVar(std::in_place_index<1>, static_cast<long>(v));
+    case 2:
+        return BigVar(std::in_place_index<2>, static_cast<short>(v));
+    case 3:
+        return BigVar(std::in_place_index<3>, static_cast<char>(v));
+    case 4:
+        return BigVar(std::in_place_index<4>, v % 2 != 0);
+    case 5:
+        return BigVar(std::in_place_index<5>, static_cast<float>(v % 1000));
+    case 6:
+        return BigVar(std::in_place_index<6>, static_cast<double>(v % 100000));
+    case 7:
+        return BigVar(std::in_place_index<7>, static_cast<unsigned>(v));
+    case 8:
+        return BigVar(std::in_place_index<8>, s + std::to_string(v));
+    case 9:
+        return BigVar(std::in_place_index<9>, v * 1000003);
+    case 10:
+        return BigVar(std::in_place_index<10>, static_cast<unsigned char>(v));
+    default:
+        return BigVar(std::in_place_index<11>, std::make_pair(static_cast<int>(v), 1));
+    }
+}
+static std::string run_big_variant(const Case& c, vf::Ctx& ctx)
+{
+    ctx.tag("variant:twelve-alternatives");
+    // per alternative: 24 distinct values hash to (nearly) as many hashes; equal values hash equal
+    for (int index = 0; index < 12; ++index)
+    {
+        if (index == 4)
+            continue; // bool has two values
+        std::set<std::size_t> hashes;
+        for (int k = 0; k < 24; ++k)
+        {
+            BigVar a = big_var(index, c.x.i % 1000 + k, c.x.s), b = big_var(index, c.x.i % 1000 + k, c.x.s);
+            if (nitro::lang::hash(a) != nitro::lang::hash(b))
+                return "equal variants (alternative " + std::to_string(index) + ") hash differently";
+            hashes.insert(nitro::lang::hash(std::make_tuple(7, a)));
+        }
+        if (hashes.size() < 22)
+            return "24 different values held as alternative " + std::to_string(index) +
+                   " of a variant with twelve alternatives give only " + std::to_string(hashes.size()) +
+                   " different hashes: the hash does not depend on the value";
+    }
+    nitro::lang::unordered_set<BigVar> set;
+    for (int k = 0; k < 12; ++k)
+        set.insert(big_var(k, c.y.i % 50, c.y.s));
+    for (int k = 0; k < 12; ++k)
+        if (set.count(big_var(k, c.y.i % 50, c.y.s)) != 1)
+            return "a hash container keyed by a variant with twelve alternatives does not find an inserted key (alternative " +
+                   std::to_string(k) + ")";
+    return "";
+}
+
+// wide-character strings as members: compared by code unit, like the member tuple
+struct SW : nitro::lang::tuple_operators<SW>
+{
+    SW(std::u16string a_, std::wstring b_) : a(std::move(a_)), b(std::move(b_))
+    {
+    }
+    auto as_tuple()
+    {
+        return std::tie(a, b);
+    }
+    std::u16string a;
+    std::wstring b;
+};
+static std::string run_wide_strings(const Case& c, vf::Ctx& ctx)
+{
+    ctx.tag("member:wide-strings");
+    static const char16_t units[] = { u'A', u'Z', u'a', 0x00ff, 0x0100, 0x0141, 0x01ff, 0x0200, 0x20ac, 0xff21 };
+    auto mk16 = [&](long long seed) {
+        std::u16string r;
+        for (int i = 0; i < 1 + static_cast<int>((seed / 7) % 3); ++i)
+            r.push_back(units[static_cast<std::size_t>((seed >> (4 * i)) & 0xffff) % 10]);
+        return r;
+    };
+    auto mkw = [&](long long seed) {
+        std::wstring r;
+        for (int i = 0; i < 1 + static_cast<int>((seed / 5) % 3); ++i)
+            r.push_back(static_cast<wchar_t>(units[static_cast<std::size_t>((seed >> (3 * i)) & 0xffff) % 10]));
+        return r;
+    };
+    long long sx = c.x.i < 0 ? -c.x.i : c.x.i, sy = c.y.i < 0 ? -c.y.i : c.y.i;
+    for (int k = 0; k < 6; ++k)
+    {
+        SW x(mk16(sx + k), mkw(sx + 3 * k)), y(c.z.i % 2 ? mk16(sx + k) : mk16(sy + k), mkw(sy + k));
+        auto tx = std::make_tuple(x.a, x.b), ty = std::make_tuple(y.a, y.b);
+        bool ok = (x < y) == (tx < ty) && (x > y) == (tx > ty) && (x == y) == (tx == ty) && (x != y) == (tx != ty) &&
+                  (x <= y) == (tx <= ty) && (x >= y) == (tx >= ty);
+        if (!ok)
+            return "a type with u16string and wstring members: the operators disagree with the member tuple for code units " +
+                   std::to_string(static_cast<unsigned>(x.a[0])) + " vs " + std::to_string(static_cast<unsigned>(y.a[0]));
+        if ((x == y) && nitro::lang::hash(x) != nitro::lang::hash(y))
+            return "equal values with wide-string members hash differently";
+    }
+    return "";
+}
+
 static Val gen_val(vf::Src& src, bool wide)
 {
     Val v;
@@ -934,6 +1054,8 @@ std::string check(const Case& c, vf::Ctx& ctx)
             m = run_long_text<S3>(c, ctx);
         if (m.empty())
             m = run_nan(c, ctx);
+        if (m.empty())
+            m = run_wide_strings(c, ctx);
         break;
     case T_S4:
         m = run_random<S4>(c, true, ctx);
@@ -964,6 +1086,8 @@ std::string check(const Case& c, vf::Ctx& ctx)
             m = run_long_text<Var>(c, ctx);
         if (m.empty())
             m = run_valueless(c, ctx);
+        if (m.empty())
+            m = run_big_variant(c, ctx);
         break;
     case T_S5:
         m = run_random<S5>(c, true, ctx);
